@@ -18,3 +18,16 @@ Fixpoint mism_from (i : nat) (cs : list ((Z * tstate) * list op * list Z)) : lis
   | c :: t => if case_ok c then mism_from (S i) t else i :: mism_from (S i) t
   end.
 Definition c13_mismatches := mism_from 0.
+
+(* several timers pending on one mock clock: (due times in seconds, clock settings, timers served by each setting (indices, sorted)) *)
+From BV Require Import Corr.C03corr.
+Definition number {A} (l : list A) : list (nat * A) := combine (seq 0 (length l)) l.
+Definition clock_case_ok (c : list Z * list Z * list (list Z)) : bool :=
+  let '(dues, Ts, obs) := c in
+  list_eqb zlist_eqb (map (map Z.of_nat) (clock_run (number dues) Ts)) obs.
+Fixpoint clock_mism_from (i : nat) (cs : list (list Z * list Z * list (list Z))) : list nat :=
+  match cs with
+  | [] => []
+  | c :: t => if clock_case_ok c then clock_mism_from (S i) t else i :: clock_mism_from (S i) t
+  end.
+Definition c13_clock_mismatches := clock_mism_from 0.
